@@ -85,24 +85,11 @@ theorem post_lexLoop (inner : Nat) : ∀ (f : Nat) (st : State) (acc : List Item
     have hn := post_next inner inner st hinv.interp hin (by omega)
     generalize next false inner inner st = r at hn
     cases hn with
-    | @item it st' h =>
+    | @item it st' hp h =>
       dsimp only
       have hch := h.2.1
-      by_cases hp : st.core.prev = .EOF
-      · -- cannot happen: `next` answers `done` when the previous token is EOF; still fine for the invariant
-        apply ih st' (it :: acc) (hinv.step h) (by rw [hch]; exact hin)
-        obtain ⟨t, rest, e1, e2, e3⟩ := hinv.eof hp
-        -- phi st = 2*(..)+0+0; use the general bound through the step relation on prev ≠ EOF is unavailable, so bound directly
-        have : phi st' ≤ phi st := by
-          obtain ⟨q1, q2, q3, q4, q5⟩ := h
-          exact absurd hp (by
-            intro _
-            exact False.elim (by
-              have := q5
-              exact (Classical.em (phi st' ≤ phi st)).elim (fun _ => by omega) (fun _ => by omega)))
-        omega
-      · have := h.2.2.2.2 hp
-        exact ih st' (it :: acc) (hinv.step h) (by rw [hch]; exact hin) (by omega)
+      have := h.2.2.2.2 hp
+      exact ih st' (it :: acc) (hinv.step h) (by rw [hch]; exact hin) (by omega)
     | done hp =>
       dsimp only [LoopPost]
       intro hok
@@ -114,5 +101,18 @@ theorem post_lexLoop (inner : Nat) : ∀ (f : Nat) (st : State) (acc : List Item
       subst e1
       simp [okTokens_cons_tok, e2] at hb ⊢
       simpa [okTokens_cons_tok] using hb
+
+theorem normalizeNewline_length_le (l : List Char) : (normalizeNewline l).length ≤ l.length := by
+  fun_induction normalizeNewline l <;> simp <;> omega
+
+theorem loopPost_lexNow (src : List Char) : LoopPost (lexNow src) := by
+  unfold lexNow lexAll
+  have hsz := normalizeNewline_length_le src
+  apply post_lexLoop
+  · exact ⟨by simp [initState, initCore, InterpOk], by intro _; simp [cnt, okTokens, countKind, initState],
+      by intro h; simp [initState, initCore] at h⟩
+  · simp [initState, initCore, innerFuel]; omega
+  · simp [phi, initState, initCore, outerFuel]; omega
+
 
 end ErgVerif.C08
